@@ -658,6 +658,116 @@ example : ∃ s s', reattach s 0 3 (some 2) = .ok s' ∧ genReattach 0 3 (some 2
   obtain ⟨s, s', _, _, h, _⟩ := witness_proxy_nic
   exact ⟨s, s', h, by rw [reattach_matches_source, h]; rfl⟩
 
+/-! ### `VMNetconfig.validate` -/
+
+/-- the range check of `IPv4Address(net_ip) + offset` in natural numbers -/
+theorem ipv4_add (a b : Nat) :
+    ipv4 (Int.ofNat a + Int.ofNat b) = if a + b ≥ ipSpace then .error .valueError else .ok (Int.ofNat (a + b)) := by
+  unfold ipv4
+  simp only [Int.ofNat_eq_natCast]
+  by_cases h : a + b ≥ ipSpace
+  · have : ((a : Int) + (b : Int) < 0 ∨ (a : Int) + (b : Int) ≥ (ipSpace : Int)) := by omega
+    rw [if_pos this, if_pos h]
+  · have : ¬ ((a : Int) + (b : Int) < 0 ∨ (a : Int) + (b : Int) ≥ (ipSpace : Int)) := by omega
+    rw [if_neg this, if_neg h]
+    simp
+
+theorem ipStartIface_eq (c : Netconfig) :
+    ipStartIface c = if c.netIp + minOff c.range ≥ ipSpace then .error .valueError
+      else .ok (c.netIp + minOff c.range, c.bits) := by
+  unfold ipStartIface
+  rw [ipv4_add]
+  by_cases h : c.netIp + minOff c.range ≥ ipSpace
+  · simp only [h, if_true]; rfl
+  · simp only [h, if_false]; simp [bind, Except.bind, pure, Except.pure]; omega
+
+theorem ipEndIface_eq (c : Netconfig) :
+    ipEndIface c = if c.netIp + maxOff c.range ≥ ipSpace then .error .valueError
+      else .ok (c.netIp + maxOff c.range, c.bits) := by
+  unfold ipEndIface
+  rw [ipv4_add]
+  by_cases h : c.netIp + maxOff c.range ≥ ipSpace
+  · simp only [h, if_true]; rfl
+  · simp only [h, if_false]; simp [bind, Except.bind, pure, Except.pure]; omega
+
+/-- the body of the interface loop of `validate`: the two asserts (in this order, the `KeyError` of the dictionary
+    read between them) and the `TestError` -/
+theorem validateIfaces_matches_source (s : Net) (n : Nat) (c : Netconfig) (l : List (Nat × Nat)) :
+    genValidateIfaces s n c l = validateIfs s n c l := by
+  induction l with
+  | nil => rfl
+  | cons x rest ih =>
+    obtain ⟨k, i⟩ := x
+    simp only [genValidateIfaces, validateIfs, genValidateIface, ifsGet, bind, Except.bind, pure,
+      Except.pure, throw, throwThe, MonadExceptOf.throw]
+    by_cases h1 : (s.iface i).nc = some n
+    · cases hl : alookup (s.iface i).ip c.ifs with
+      | none => simp [h1]
+      | some j =>
+        by_cases h2 : j = i
+        · by_cases h3 : inNet c (s.iface i).ip = true
+          · simp [h1, h2, h3, ih, inNetwork]
+          · have h3' : inNet c (s.iface i).ip = false := by simpa using h3
+            simp [h1, h2, h3', inNetwork]
+        · simp [h1, h2]
+    · simp [h1]
+
+/-- the loop over the address dictionary: `TestError` for the first address outside the own network -/
+theorem validateAddrs_eq (c : Netconfig) (l : List IpIface) :
+    genValidateAddrs c l = (match l.all (fun a => inNetwork c a) with | true => .ok () | false => .error .testError) := by
+  induction l with
+  | nil => rfl
+  | cons a rest ih =>
+    rw [List.all_cons]
+    cases hx : inNetwork c a with
+    | false =>
+      simp only [genValidateAddrs, genValidateAddress, hx, bind, Except.bind, throw, throwThe, MonadExceptOf.throw,
+        Bool.false_and]
+      rfl
+    | true =>
+      simp only [genValidateAddrs, genValidateAddress, hx, bind, Except.bind, pure, Except.pure, ih, Bool.true_and]
+      rfl
+
+/-- `VMNetconfig.validate`: the generated definition — the address dictionary (host only when defined and non-empty,
+    `ip_start`, `ip_end` with their `AddressValueError`), the `TestError` loop over it, the loop over the interfaces
+    with its two asserts, the `KeyError` and the `TestError` — is the model's `validate`, for every network state and
+    every netconfig: same exception or none. -/
+theorem validate_matches_source (s : Net) (n : Nat) : genValidate s n = validate s n := by
+  unfold genValidate validate
+  simp only [genValidateAddresses, ipStartIface_eq, ipEndIface_eq, validateIfaces_matches_source, validateAddrs_eq,
+    bind, Except.bind, pure, Except.pure]
+  by_cases hs : (s.nc n).netIp + minOff (s.nc n).range ≥ ipSpace
+  · simp [hs]
+  · by_cases he : (s.nc n).netIp + maxOff (s.nc n).range ≥ ipSpace
+    · simp [hs, he]
+    · cases hh : (s.nc n).host with
+      | none =>
+        cases h1 : inNet (s.nc n) ((s.nc n).netIp + minOff (s.nc n).range) <;>
+          cases h2 : inNet (s.nc n) ((s.nc n).netIp + maxOff (s.nc n).range) <;>
+          simp [hs, he, hh, h1, h2, hostOutside, inNetwork]
+      | some h =>
+        cases h0 : inNet (s.nc n) h <;>
+          cases h1 : inNet (s.nc n) ((s.nc n).netIp + minOff (s.nc n).range) <;>
+          cases h2 : inNet (s.nc n) ((s.nc n).netIp + maxOff (s.nc n).range) <;>
+          simp [hs, he, hh, h0, h1, h2, hostOutside, inNetwork]
+
+/-- `add_interface` with the generated `validate` inside (the atom `validate_` of `genAddInterface` is the hand
+    model's `validate`, which is the generated one) -/
+theorem validate__eq_genValidate (n : Nat) (s : Net) :
+    validate_ n s = match genValidate s n with | .error e => .error e | .ok () => .ok ((), s) := by
+  rw [validate_matches_source]; rfl
+
+/-- a run of the generated `validate` that passes every check, on the selftest network -/
+example : ∃ s, build inpA = .ok s ∧ genValidate s 0 = .ok () := by
+  have hc : holds (build inpA) (fun s => match validate s 0 with | .ok () => true | .error _ => false) = true := by
+    decide +kernel
+  obtain ⟨s, hb, h1⟩ := holds_ok _ _ hc
+  refine ⟨s, hb, ?_⟩
+  rw [validate_matches_source]
+  cases hv : validate s 0 with
+  | error e => rw [hv] at h1; cases h1
+  | ok u => rfl
+
 /-! ### `VMNetwork.integrate_node` -/
 
 /-- the inner `for netconfig in self.netconfigs.values(): if netconfig.can_add_interface(interface): …; break` is the
